@@ -160,7 +160,7 @@ impl Property for C18 {
         ]
     }
     fn expected_probes(&self) -> Vec<&'static str> {
-        vec!["pitch", "pitch_tp0", "noise", "envelope", "envelope_period_measured", "ladder", "gating", "panning", "bound", "readback", "rate_below_27k", "ym_chip", "order_independence", "machine_retrigger", "listener_independence"]
+        vec!["pitch", "pitch_tp0", "noise", "envelope", "envelope_period_measured", "ladder", "gating", "panning", "bound", "readback", "rate_below_27k", "ym_chip", "order_independence", "machine_retrigger", "listener_independence", "mirrored_register_numbers", "host_mute_unmute"]
     }
     fn time_unit_hz(&self) -> f64 {
         44_100.0
@@ -389,8 +389,45 @@ impl Property for C18 {
             let shape = *rng.pick(&[0u8, 1, 2, 3, 9, 4, 15]); // one-shot shapes ending at zero
             let ep: u16 = 200 + (rng.u16() % 200); // ramp of 29..58 ms
             let ch = ch as u8;
+            // register numbers wrap modulo 16: in half of the runs every number is written with seeded upper
+            // bits; a twin machine gets the plain numbers and must sound bit-identical
+            let hi_bits: u8 = if rng.bool() { *rng.pick(&[0x10u8, 0x80, 0xF0, 0x50]) } else { 0 };
+            let mut twin = if hi_bits != 0 { Some(new_emu(&cfg)) } else { None };
+            if let Some(t) = twin.as_mut() {
+                ctx.probe("mirrored_register_numbers");
+                write_mem(t, 0x8000, &[0xF3, 0x18, 0xFE]);
+                st.to_impl(t.verif_cpu());
+                let prog = |e: &mut Emu, hb: u8| -> Vec<(f32, f32)> {
+                    let mut v = vec![];
+                    for (r, val) in [(7u8, 0x3Eu8 & !(1 << ch) | 0x38), (ch * 2, 0x40), (ch * 2 + 1, 0x01), (8 + ch, 0x0C)] {
+                        e.verif_bus().write_io(0xFFFD, r | hb);
+                        e.verif_bus().write_io(0xBFFD, val);
+                    }
+                    let _ = run_frames(e, 3);
+                    drain_audio(e, &mut v);
+                    // back to silence
+                    e.verif_bus().write_io(0xFFFD, (8 + ch) | hb);
+                    e.verif_bus().write_io(0xBFFD, 0);
+                    // let the resampler's memory of the tone drain before the next clause measures a swing
+                    let _ = run_frames(e, 1);
+                    let mut sink = vec![];
+                    drain_audio(e, &mut sink);
+                    v
+                };
+                let a = prog(&mut e, hi_bits);
+                let b = prog(t, 0);
+                let swing = |v: &Vec<(f32, f32)>| v.iter().fold((f32::MAX, f32::MIN), |a, s| (a.0.min(s.0.max(s.1)), a.1.max(s.0.max(s.1))));
+                let (sa, sb) = (swing(&a), swing(&b));
+                if a.len() != b.len() || a.iter().zip(b.iter()).any(|(x, y)| x.0.to_bits() != y.0.to_bits() || x.1.to_bits() != y.1.to_bits()) {
+                    return Err(Fail::new(
+                        "C18.mirrored_register_number",
+                        &format!("hi_bits={:02X}", hi_bits),
+                        format!("a tone programmed through register numbers n|{:02X} sounds different from the same tone programmed through the plain numbers (swing {:.3} vs {:.3})", hi_bits, sa.1 - sa.0, sb.1 - sb.0),
+                    ));
+                }
+            }
             let wr = |e: &mut Emu, r: u8, v: u8| {
-                e.verif_bus().write_io(0xFFFD, r);
+                e.verif_bus().write_io(0xFFFD, r | hi_bits);
                 e.verif_bus().write_io(0xBFFD, v);
             };
             wr(&mut e, 7, 0x3F);
@@ -413,8 +450,21 @@ impl Property for C18 {
             wr(&mut e, 13, shape);
             let e1 = energy(&mut e, 2)?;
             let quiet = energy(&mut e, 8)?;
-            let _ = quiet;
             let tail = energy(&mut e, 2)?;
+            // the host mutes and un-mutes AY sound: a finished one-shot envelope stays finished (nothing
+            // wrote R13)
+            e.set_ay_enabled(false);
+            let _ = energy(&mut e, 2)?;
+            e.set_ay_enabled(true);
+            let after_unmute = energy(&mut e, 3)?;
+            ctx.probe("host_mute_unmute");
+            if e1 >= 0.05 && tail <= e1 * 0.2 && after_unmute > e1 * 0.2 {
+                return Err(Fail::new(
+                    "C18.host_mute_retriggers",
+                    &format!("shape={}", shape),
+                    format!("after the host switched AY sound off and on again the finished envelope (shape {}) was heard again: swing {:.3} (first burst {:.3}, silence before {:.3})", shape, after_unmute, e1, tail),
+                ));
+            }
             // idempotent re-writes of the other registers: still silent
             wr(&mut e, 7, 0x3F);
             wr(&mut e, 8 + ch, 0x10);
@@ -430,6 +480,9 @@ impl Property for C18 {
             }
             if still > e1 * 0.2 {
                 return Err(Fail::new("C18.rewrite_not_idempotent", "", format!("re-writing R7, R{}, R11 with the values they already hold made the silent channel audible (swing {:.3} vs burst {:.3})", 8 + ch, still, e1)));
+            }
+            if std::env::var("VERIF_DEBUG").is_ok() {
+                eprintln!("C18 f9 shape {} ep {} hi {:02X}: e1 {:.3} quiet {:.3} tail {:.3} after_unmute {:.3} still {:.3} e2 {:.3}", shape, ep, hi_bits, e1, quiet, tail, after_unmute, still, e2);
             }
             if e2 < e1 * 0.5 {
                 return Err(Fail::new(
